@@ -178,7 +178,7 @@ Proof.
   destruct (4 + Z.of_nat (length its) * 4 >? len s) eqn:E; [lia|]. clear E.
   rewrite Nat2Z.id. rewrite <- (jentries_length its 0 0).
   rewrite read_entries_at.
-  - cbn [lift jbind]. rewrite jentries_length.
+  - cbn [lift jbind]. rewrite (entries_offsets_ok its Hok). cbn [negb]. rewrite jentries_length.
     replace (4 + Z.of_nat (length its) * 4) with (4 + 4 * Z.of_nat (length its)) by lia.
     reflexivity.
   - rewrite Forall_forall. intros w Hw. apply (In_nth _ _ 0) in Hw. destruct Hw as (k & Hk & <-).
